@@ -1,34 +1,32 @@
 import Arc.Model.C15
 import Arc.Proofs.C15.Mask
-import Arc.Proofs.C15.Round
-import Arc.Proofs.C15.Tokens
+import Arc.Proofs.C15.Round2
 import Arc.Generated.C15
 /-!
-# C15 — SQL normalisation agrees with DuckDB's lexer and is reversible
+# C15 — SQL normalisation agrees with DuckDB's lexer and is reversible   (tree at 64dff5c)
 
-`mSegs` / `render` / `unmask` model `MaskStringLiterals` / `UnmaskStringLiterals`, `sSegs` / `strip`
-model `stripSQLComments`, `lSegs` is SqlLex (the reference lexer; validated against DuckDB's own
-parser by the harness). Helper lemmas live in `Arc/Proofs/C15/*`.
+`mSegs` / `render` / `unmask` model `MaskStringLiterals` / `UnmaskStringLiterals` (single-pass
+`strings.NewReplacer`), `sSegs` / `strip` model `stripSQLComments`, `lSegs` is SqlLex (the reference
+lexer; validated against DuckDB's own parser by the harness). Helper lemmas: `Arc/Proofs/C15/*`.
 
-The property is FALSE of the code as written on several input classes (each confirmed on the real
-functions with DuckDB as ground truth, see the harness monitors). Full statements that do NOT hold:
+After the repairs 8f4fe38 / abf5a7e / 942e7b2 / 64dff5c the masker's quote bodies, escape strings,
+dollar tags and comments ARE SqlLex's, and restored text is never rescanned. Full statements that
+still do NOT hold of the code (one `_witness` each, each also a harness monitor):
 
-    theorem C15_agree_full (s) : mSegs s = (lSegs s).flatMap demote          -- false: witnesses 1–10
-    theorem C15_strip_agree_full (t) (no literal in t) : sSegs t = lSegs t   -- false: witnesses 21–23
-    theorem C15_roundtrip_full (s) : unmask (mask s true).1 (mask s true).2 = s   -- false: witness 30
+    theorem C15_agree_full (s) : mSegs s = lSegs s                     -- false: `$`/`e'` decided by the previous BYTE; `--` ends only at \n
+    theorem C15_strip_agree_full (t) (no literal in t) : sSegs t = lSegs t   -- false: CR, nesting, byte after a block comment
+    theorem C15_roundtrip_full (s) : unmask (mask s true).1 (mask s true).2 = s   -- false: look-alike text OUTSIDE literals
 
 They are proved on the explicit decidable classes `kClassM s = 0`, `kClassS t = 0`, `kClassP s = 0`
-(`Arc/Model/C15.lean`), and one `_witness` theorem per excluded construct shows the exclusion is needed.
+(`Arc/Model/C15.lean`). Concrete inputs are explicit UTF-8 byte lists (so that `decide` can evaluate
+them in the kernel); the doc comment of each theorem shows the text.
 -/
 namespace Arc.C15
 
-/-! Concrete inputs below are written as explicit UTF-8 byte lists (so that `decide` can evaluate
-them in the kernel); the doc comment of each theorem shows the text. -/
-
 /-! ## spans partition the input (all inputs) -/
 
-/-- **C15_mask_partition.** The tokens and raw bytes the masker delimits are a partition of the input
-(nothing is dropped, duplicated or reordered before placeholders are substituted). -/
+/-- **C15_mask_partition.** The tokens, comments and raw bytes the masker delimits are a partition of
+the input (nothing is dropped, duplicated or reordered before placeholders are substituted). -/
 theorem C15_mask_partition (s : Bytes) : segBytes (mSegs s) = s :=
   mSegsF_bytes s.length 0 s (Nat.le_refl _)
 
@@ -74,19 +72,22 @@ theorem C15_strip_outside (t : Bytes) :
   · exact Or.inr (Or.inl ⟨o, ho, by simp [ho, stripOut]⟩)
   · exact Or.inr (Or.inr ⟨o, ho, by simp [ho, stripOut]⟩)
 
+/-- `a /* x */ b -- y⏎c` ↦ `a   b ⏎c` -/
 example : strip ([97, 32, 47, 42, 32, 120, 32, 42, 47, 32, 98, 32, 45, 45, 32, 121, 10, 99] : Bytes) true = ([97, 32, 32, 32, 98, 32, 10, 99] : Bytes) := by decide
 
 /-! ## agreement with SqlLex on the class K -/
 
-/-- **C15_agree_partial.** On `kClassM s = 0` (no backslash before a quote inside a quoted token, no
-quote/dollar byte inside a comment, no `$`/`e'` glued to a non-ASCII identifier or a number, ASCII
-dollar tags) the literal and quoted-identifier spans delimited by `MaskStringLiterals` are exactly
-SqlLex's, and everything else (comments included) is passed through byte by byte. -/
-theorem C15_agree_partial (s : Bytes) (hK : kClassM s = 0) :
-    mSegs s = (lSegs s).flatMap demote :=
+/-- **C15_agree_partial.** On `kClassM s = 0` — no `$` / `e'` that continues an identifier after `$` or
+a non-ASCII byte, none glued to a number, no `--` comment ended by a carriage return — the segmentation
+of `MaskStringLiterals` (literals, quoted identifiers, AND the comments it copies through) is exactly
+SqlLex's. Backslashes, quotes inside comments and non-ASCII dollar tags are inside the class since the
+repairs. -/
+theorem C15_agree_partial (s : Bytes) (hK : kClassM s = 0) : mSegs s = lSegs s :=
   mSegsF_eq_lSegsF s.length false 0 s (Nat.le_refl _) hK
 
-example : kClassM ([83, 69, 76, 69, 67, 84, 32, 39, 105, 116, 39, 39, 115, 39, 44, 32, 69, 39, 97, 92, 110, 98, 39, 44, 32, 36, 116, 36, 120, 39, 121, 36, 116, 36, 32, 47, 42, 32, 99, 32, 42, 47, 32, 70, 82, 79, 77, 32, 34, 109, 121, 45, 45, 116, 34, 32, 45, 45, 32, 100, 111, 110, 101] : Bytes) = 0 := by decide
+/-- formerly excluded constructs are now inside the class:
+`SELECT 'a\' AS x, E'\\' AS y, $é$q$é$ /* ' */ FROM "t\" -- ' "⏎` -/
+example : kClassM ([83, 69, 76, 69, 67, 84, 32, 39, 97, 92, 39, 32, 65, 83, 32, 120, 44, 32, 69, 39, 92, 92, 39, 32, 65, 83, 32, 121, 44, 32, 36, 195, 169, 36, 113, 36, 195, 169, 36, 32, 47, 42, 32, 39, 32, 42, 47, 32, 70, 82, 79, 77, 32, 34, 116, 92, 34, 32, 45, 45, 32, 39, 32, 34, 10] : Bytes) = 0 := by decide
 
 /-- **C15_strip_agree_partial.** On `kClassS t = 0` (text without literals — what the masker hands
 over —, no nested block comment, no `--` comment ended by a carriage return, not exactly one byte
@@ -98,108 +99,74 @@ example : kClassS ([83, 69, 76, 69, 67, 84, 32, 95, 95, 83, 84, 82, 95, 48, 95, 
 
 /-! ## one witness per excluded construct (each also replayed on the real code by the harness) -/
 
-/-- backslash before the closing quote of a plain literal: `'\' '` -/
-theorem C15_agree_witness_plain_backslash :
-    kClassM ([39, 92, 39, 32, 39] : Bytes) = kPlainBs ∧ mSegs ([39, 92, 39, 32, 39] : Bytes) ≠ (lSegs ([39, 92, 39, 32, 39] : Bytes)).flatMap demote := by decide
-/-- the same inside a quoted identifier: `"\" "` -/
-theorem C15_agree_witness_ident_backslash :
-    kClassM ([34, 92, 34, 32, 34] : Bytes) = kIdentBs ∧ mSegs ([34, 92, 34, 32, 34] : Bytes) ≠ (lSegs ([34, 92, 34, 32, 34] : Bytes)).flatMap demote := by decide
-/-- escaped backslash at the end of an escape string: `E'\\' '` -/
-theorem C15_agree_witness_estring_backslash :
-    kClassM ([69, 39, 92, 92, 39, 32, 39] : Bytes) = kEBs ∧ mSegs ([69, 39, 92, 92, 39, 32, 39] : Bytes) ≠ (lSegs ([69, 39, 92, 92, 39, 32, 39] : Bytes)).flatMap demote := by decide
-/-- quote inside a line comment (masking runs before comment stripping) -/
-theorem C15_agree_witness_quote_in_line_comment :
-    kClassM ([45, 45, 39, 10, 39] : Bytes) = kQuoteInLine ∧ mSegs ([45, 45, 39, 10, 39] : Bytes) ≠ (lSegs ([45, 45, 39, 10, 39] : Bytes)).flatMap demote := by decide
-/-- quote inside a block comment -/
-theorem C15_agree_witness_quote_in_block_comment :
-    kClassM ([47, 42, 39, 42, 47, 39] : Bytes) = kQuoteInBlock ∧ mSegs ([47, 42, 39, 42, 47, 39] : Bytes) ≠ (lSegs ([47, 42, 39, 42, 47, 39] : Bytes)).flatMap demote := by decide
 /-- `$` is an identifier character: `a$$x$ b` is ONE identifier for DuckDB, the masker swallows `$x$ b` -/
 theorem C15_agree_witness_dollar_in_identifier :
-    kClassM ([97, 36, 36, 120, 36, 32, 98] : Bytes) = kDollarInIdent ∧ mSegs ([97, 36, 36, 120, 36, 32, 98] : Bytes) ≠ (lSegs ([97, 36, 36, 120, 36, 32, 98] : Bytes)).flatMap demote := by decide
+    kClassM ([97, 36, 36, 120, 36, 32, 98] : Bytes) = kDollarInIdent ∧ mSegs ([97, 36, 36, 120, 36, 32, 98] : Bytes) ≠ lSegs ([97, 36, 36, 120, 36, 32, 98] : Bytes) := by decide
 /-- `éE'a'`: the `E` continues the identifier `éE` -/
 theorem C15_agree_witness_e_in_identifier :
-    kClassM ([195, 169, 69, 39, 97, 39] : Bytes) = kEInIdent ∧ mSegs ([195, 169, 69, 39, 97, 39] : Bytes) ≠ (lSegs ([195, 169, 69, 39, 97, 39] : Bytes)).flatMap demote := by decide
+    kClassM ([195, 169, 69, 39, 97, 39] : Bytes) = kEInIdent ∧ mSegs ([195, 169, 69, 39, 97, 39] : Bytes) ≠ lSegs ([195, 169, 69, 39, 97, 39] : Bytes) := by decide
+/-- `1$$a$$` -/
 theorem C15_agree_witness_dollar_after_digit :
-    kClassM ([49, 36, 36, 97, 36, 36] : Bytes) = kDollarAfterDigit ∧ mSegs ([49, 36, 36, 97, 36, 36] : Bytes) ≠ (lSegs ([49, 36, 36, 97, 36, 36] : Bytes)).flatMap demote := by decide
-/-- non-ASCII dollar tag `$é$a$é$` -/
-theorem C15_agree_witness_dollar_tag_nonascii :
-    kClassM ([36, 195, 169, 36, 97, 36, 195, 169, 36] : Bytes) = kDollarTagHigh ∧ mSegs ([36, 195, 169, 36, 97, 36, 195, 169, 36] : Bytes) ≠ (lSegs ([36, 195, 169, 36, 97, 36, 195, 169, 36] : Bytes)).flatMap demote := by decide
+    kClassM ([49, 36, 36, 97, 36, 36] : Bytes) = kDollarAfterDigit ∧ mSegs ([49, 36, 36, 97, 36, 36] : Bytes) ≠ lSegs ([49, 36, 36, 97, 36, 36] : Bytes) := by decide
+/-- `1e'a'` -/
 theorem C15_agree_witness_estring_after_digit :
-    kClassM ([49, 101, 39, 97, 39] : Bytes) = kEAfterDigit ∧ mSegs ([49, 101, 39, 97, 39] : Bytes) ≠ (lSegs ([49, 101, 39, 97, 39] : Bytes)).flatMap demote := by decide
+    kClassM ([49, 101, 39, 97, 39] : Bytes) = kEAfterDigit ∧ mSegs ([49, 101, 39, 97, 39] : Bytes) ≠ lSegs ([49, 101, 39, 97, 39] : Bytes) := by decide
+/-- `--c␍'a'`: DuckDB ends the comment at the carriage return and sees the literal `'a'`; the masker
+(64dff5c) copies the comment through up to `\n` and never masks it -/
+theorem C15_agree_witness_cr_line_comment :
+    kClassM ([45, 45, 99, 13, 39, 97, 39] : Bytes) = kCrEndsLineM ∧ mSegs ([45, 45, 99, 13, 39, 97, 39] : Bytes) ≠ lSegs ([45, 45, 99, 13, 39, 97, 39] : Bytes) := by decide
 
 /-- a carriage return ends a `--` comment for DuckDB, not for `stripSQLComments`: `b` is deleted -/
 theorem C15_strip_witness_cr :
-    kClassS ([45, 45, 97, 13, 98] : Bytes) = kCrEndsLine ∧ sSegs ([45, 45, 97, 13, 98] : Bytes) ≠ lSegs ([45, 45, 97, 13, 98] : Bytes) ∧
-    strip ([45, 45, 97, 13, 98] : Bytes) true = [] := by decide
+    kClassS ([45, 45, 97, 13, 98] : Bytes) = kCrEndsLine ∧ sSegs ([45, 45, 97, 13, 98] : Bytes) ≠ lSegs ([45, 45, 97, 13, 98] : Bytes) ∧ strip ([45, 45, 97, 13, 98] : Bytes) true = [] := by decide
 /-- block comments nest in DuckDB: `c*/` survives stripping although it is inside the comment -/
 theorem C15_strip_witness_nested :
-    kClassS ([47, 42, 97, 47, 42, 98, 42, 47, 99, 42, 47, 100, 101] : Bytes) = kNested ∧ sSegs ([47, 42, 97, 47, 42, 98, 42, 47, 99, 42, 47, 100, 101] : Bytes) ≠ lSegs ([47, 42, 97, 47, 42, 98, 42, 47, 99, 42, 47, 100, 101] : Bytes) ∧
-    strip ([47, 42, 97, 47, 42, 98, 42, 47, 99, 42, 47, 100, 101] : Bytes) true = ([32, 99, 42, 47, 100, 101] : Bytes) := by decide
+    kClassS ([47, 42, 97, 47, 42, 98, 42, 47, 99, 42, 47, 100, 101] : Bytes) = kNested ∧ sSegs ([47, 42, 97, 47, 42, 98, 42, 47, 99, 42, 47, 100, 101] : Bytes) ≠ lSegs ([47, 42, 97, 47, 42, 98, 42, 47, 99, 42, 47, 100, 101] : Bytes) ∧ strip ([47, 42, 97, 47, 42, 98, 42, 47, 99, 42, 47, 100, 101] : Bytes) true = ([32, 99, 42, 47, 100, 101] : Bytes) := by decide
 /-- exactly one byte after a block comment is swallowed: `/**/x` becomes a single space -/
 theorem C15_strip_witness_byte_after_block :
-    kClassS ([47, 42, 42, 47, 120] : Bytes) = kByteAfterBlock ∧ sSegs ([47, 42, 42, 47, 120] : Bytes) ≠ lSegs ([47, 42, 42, 47, 120] : Bytes) ∧
-    strip ([47, 42, 42, 47, 120] : Bytes) true = ([32] : Bytes) := by decide
+    kClassS ([47, 42, 42, 47, 120] : Bytes) = kByteAfterBlock ∧ sSegs ([47, 42, 42, 47, 120] : Bytes) ≠ lSegs ([47, 42, 42, 47, 120] : Bytes) ∧ strip ([47, 42, 42, 47, 120] : Bytes) true = ([32] : Bytes) := by decide
 
 /-! ## round trip -/
 
-/-- **C15_roundtrip_partial.** `UnmaskStringLiterals(MaskStringLiterals(s))` returns `s` whenever the
-masker found no quoted identifier (no `__IDENT_n__` / `ReplaceAll` involved) and `s` has no two
-consecutive underscores, for either value of the `hasQuotes` flag. (The harness checks the round
-trip on the much larger class `kClassP s = 0` — no `STR_`/`IDENT_` fragment — where it never failed;
-that larger class is validated, not proved.) -/
-theorem C15_roundtrip_partial (s : Bytes) (hq : Bool)
-    (hNoIdent : (mSegs s).all noIdentSeg = true) (hNoDunder : hasPair 95 95 s = false) :
+theorem unmaskF_nil (f : Nat) : ∀ (t : Bytes), unmaskF [] f t = t := by
+  induction f with
+  | zero => intro t; rfl
+  | succ f ih => intro t; cases t with
+    | nil => rfl
+    | cons c t => simp [unmaskF, findMask, ih]
+
+/-- **C15_roundtrip_partial.** `UnmaskStringLiterals(MaskStringLiterals(s, hasQuotes)) = s` whenever no
+`STR_` / `IDENT_` fragment occurs in the text OUTSIDE string literals and quoted identifiers
+(`kClassP s = 0`), for either value of the flag. Quoted identifiers (shared placeholders for
+byte-identical tokens), any number of masks, and literals whose CONTENT spells a placeholder
+(`'__STR_1__'`, `'__IDENT_0__'`) are all covered: the single pass never rescans restored text, no
+placeholder is a prefix of another, and no placeholder text can start inside clean un-masked text. -/
+theorem C15_roundtrip_partial (s : Bytes) (hq : Bool) (hK : kClassP s = 0) :
     unmask (mask s hq).1 (mask s hq).2 = s := by
   unfold mask
   cases hq with
-  | false => simp [unmask]
+  | false => simp [unmask, unmaskF_nil]
   | true =>
-    have := roundtrip_gen (mSegs s) 0 [] [] hNoIdent (by simpa [C15_mask_partition] using hNoDunder)
+    have hc : runsClean [] (mSegs s) = true := by
+      unfold kClassP at hK
+      by_cases h : runsClean [] (mSegs s) = true
+      · exact h
+      · simp [h, kLookalike] at hK
+    have := roundtrip_segs (mSegs s) hc
     simpa [C15_mask_partition] using this
 
-/-- **C15_roundtrip_tokens.** For EVERY input (quoted identifiers and their de-duplication
-included): the masked text is the token list `renderT` with each placeholder token spelled out, the
-masks are `renderT`'s, and restoring the placeholder TOKENS (first occurrence for `__STR_n__`, every
-occurrence for `__IDENT_n__`) returns the input. Identifiers share a placeholder exactly when their
-token text is byte-for-byte equal (`renderT` looks the text up; tied to the source by
-`C15_ident_dedup_key_tied`), so case variants such as `"Host"` / `"host"` keep separate masks. What the
-byte-level `C15_roundtrip_partial` adds is only that placeholder TEXT cannot be confused with user text. -/
-theorem C15_roundtrip_tokens (s : Bytes) :
-    -- the current source restores first-to-last, once per string mask, everywhere per identifier
-    -- mask, de-duplicating identifiers by their exact text: what `unmaskT` / `renderT` model
-    (Arc.Generated.C15.unmaskFirstToLast = true ∧ Arc.Generated.C15.unmaskStrCount = 1 ∧
-      Arc.Generated.C15.unmaskIdentAll = true ∧ Arc.Generated.C15.identDedupKeyIsTokenText = true) ∧
-    (mask s true).1 = flatT (renderT 0 [] (mSegs s)).1 ∧
-    (mask s true).2 = (renderT 0 [] (mSegs s)).2.map maskOfT ∧
-    unmaskT (renderT 0 [] (mSegs s)).1 (renderT 0 [] (mSegs s)).2 = bytesT s := by
-  have h := render_eq_renderT (mSegs s) 0 []
-  have r := roundtripT_gen (mSegs s) 0 [] [] (by intro e he; simp at he)
-  refine ⟨by decide, by simpa [mask, imBytes, imTok] using h.1, by simpa [mask, imBytes, imTok] using h.2, ?_⟩
-  simpa [bytesT, C15_mask_partition] using r
+/-- the hypothesis holds for
+`SELECT "Host", "host", "Host", '__IDENT_0__', '__STR_9__' FROM t__1 -- $$` (4 masks: `"Host"` shared) -/
+example : kClassP ([83, 69, 76, 69, 67, 84, 32, 34, 72, 111, 115, 116, 34, 44, 32, 34, 104, 111, 115, 116, 34, 44, 32, 34, 72, 111, 115, 116, 34, 44, 32, 39, 95, 95, 73, 68, 69, 78, 84, 95, 48, 95, 95, 39, 44, 32, 39, 95, 95, 83, 84, 82, 95, 57, 95, 95, 39, 32, 70, 82, 79, 77, 32, 116, 95, 95, 49, 32, 45, 45, 32, 36, 36] : Bytes) = 0 ∧ (mask ([83, 69, 76, 69, 67, 84, 32, 34, 72, 111, 115, 116, 34, 44, 32, 34, 104, 111, 115, 116, 34, 44, 32, 34, 72, 111, 115, 116, 34, 44, 32, 39, 95, 95, 73, 68, 69, 78, 84, 95, 48, 95, 95, 39, 44, 32, 39, 95, 95, 83, 84, 82, 95, 57, 95, 95, 39, 32, 70, 82, 79, 77, 32, 116, 95, 95, 49, 32, 45, 45, 32, 36, 36] : Bytes) true).2.length = 4 := by decide
 
-/-- `"Host" "host" "Host"`: two masks (`"Host"` shared by the 1st and 3rd occurrence, `"host"` its own) -/
-example : (renderT 0 [] (mSegs ([34, 72, 111, 115, 116, 34, 32, 34, 104, 111, 115, 116, 34, 32, 34, 72, 111, 115, 116, 34] : Bytes))).2 = [(true, 0, [34, 72, 111, 115, 116, 34]), (true, 1, [34, 104, 111, 115, 116, 34])] ∧
-    unmask (mask ([34, 72, 111, 115, 116, 34, 32, 34, 104, 111, 115, 116, 34, 32, 34, 72, 111, 115, 116, 34] : Bytes) true).1 (mask ([34, 72, 111, 115, 116, 34, 32, 34, 104, 111, 115, 116, 34, 32, 34, 72, 111, 115, 116, 34] : Bytes) true).2 = ([34, 72, 111, 115, 116, 34, 32, 34, 104, 111, 115, 116, 34, 32, 34, 72, 111, 115, 116, 34] : Bytes) := by decide
-
-/-- the hypotheses hold for `SELECT 'it''s' FROM t_1 WHERE a = $$x$$ -- c` (two masks) -/
-example : (mSegs ([83, 69, 76, 69, 67, 84, 32, 39, 105, 116, 39, 39, 115, 39, 32, 70, 82, 79, 77, 32, 116, 95, 49, 32, 87, 72, 69, 82, 69, 32, 97, 32, 61, 32, 36, 36, 120, 36, 36, 32, 45, 45, 32, 99] : Bytes)).all noIdentSeg = true ∧ hasPair 95 95 ([83, 69, 76, 69, 67, 84, 32, 39, 105, 116, 39, 39, 115, 39, 32, 70, 82, 79, 77, 32, 116, 95, 49, 32, 87, 72, 69, 82, 69, 32, 97, 32, 61, 32, 36, 36, 120, 36, 36, 32, 45, 45, 32, 99] : Bytes) = false ∧
-    (mask ([83, 69, 76, 69, 67, 84, 32, 39, 105, 116, 39, 39, 115, 39, 32, 70, 82, 79, 77, 32, 116, 95, 49, 32, 87, 72, 69, 82, 69, 32, 97, 32, 61, 32, 36, 36, 120, 36, 36, 32, 45, 45, 32, 99] : Bytes) true).2.length = 2 := by decide
-
-/-- `__STR_0__ 'a'`: the user's text `__STR_0__` is replaced instead of the placeholder; the result is
-`'a' __STR_0__` -/
+/-- `__STR_0__ 'a'`: the user's own text `__STR_0__` outside any literal is replaced too; result `'a' 'a'` -/
 theorem C15_roundtrip_witness_lookalike :
     kClassP ([95, 95, 83, 84, 82, 95, 48, 95, 95, 32, 39, 97, 39] : Bytes) = kLookalike ∧
-    unmask (mask ([95, 95, 83, 84, 82, 95, 48, 95, 95, 32, 39, 97, 39] : Bytes) true).1 (mask ([95, 95, 83, 84, 82, 95, 48, 95, 95, 32, 39, 97, 39] : Bytes) true).2 ≠ ([95, 95, 83, 84, 82, 95, 48, 95, 95, 32, 39, 97, 39] : Bytes) := by decide
-/-- `__STR_0'a'`: a look-alike PREFIX glued to a literal is enough (so excluding only complete
-`__STR_n__` tokens would not do) -/
+    unmask (mask ([95, 95, 83, 84, 82, 95, 48, 95, 95, 32, 39, 97, 39] : Bytes) true).1 (mask ([95, 95, 83, 84, 82, 95, 48, 95, 95, 32, 39, 97, 39] : Bytes) true).2 = ([39, 97, 39, 32, 39, 97, 39] : Bytes) := by decide
+/-- `__STR_0'a'`: a look-alike PREFIX glued to a literal is enough -/
 theorem C15_roundtrip_witness_prefix :
-    (mSegs ([95, 95, 83, 84, 82, 95, 48, 39, 97, 39] : Bytes)).all noIdentSeg = true ∧ hasPair 95 95 ([95, 95, 83, 84, 82, 95, 48, 39, 97, 39] : Bytes) = true ∧
+    kClassP ([95, 95, 83, 84, 82, 95, 48, 39, 97, 39] : Bytes) = kLookalike ∧
     unmask (mask ([95, 95, 83, 84, 82, 95, 48, 39, 97, 39] : Bytes) true).1 (mask ([95, 95, 83, 84, 82, 95, 48, 39, 97, 39] : Bytes) true).2 ≠ ([95, 95, 83, 84, 82, 95, 48, 39, 97, 39] : Bytes) := by decide
-/-- `"x" 'a'IDENT_0'b'`: no `__` in the input, yet the `ReplaceAll` used for identifier placeholders
-hits `__IDENT_0__` formed by the tail of `__STR_1__` and the user's `IDENT_0` + head of `__STR_2__` -/
-theorem C15_roundtrip_witness_ident_replaceall :
-    hasPair 95 95 ([34, 120, 34, 32, 39, 97, 39, 73, 68, 69, 78, 84, 95, 48, 39, 98, 39] : Bytes) = false ∧ (mSegs ([34, 120, 34, 32, 39, 97, 39, 73, 68, 69, 78, 84, 95, 48, 39, 98, 39] : Bytes)).all noIdentSeg = false ∧
-    unmask (mask ([34, 120, 34, 32, 39, 97, 39, 73, 68, 69, 78, 84, 95, 48, 39, 98, 39] : Bytes) true).1 (mask ([34, 120, 34, 32, 39, 97, 39, 73, 68, 69, 78, 84, 95, 48, 39, 98, 39] : Bytes) true).2 ≠ ([34, 120, 34, 32, 39, 97, 39, 73, 68, 69, 78, 84, 95, 48, 39, 98, 39] : Bytes) := by decide
 
 /-! ## tie to the current source (regenerated facts) -/
 
@@ -209,29 +176,18 @@ theorem C15_placeholder_formats_tied :
     (∀ f ∈ Arc.Generated.C15.strFormats, f = (pfxStr, [95, 95])) ∧
     (∀ f ∈ Arc.Generated.C15.identFormats, f = (pfxIdent, [95, 95])) := by decide
 
-/-- **C15_unmask_mode_tied.** String masks are restored with `strings.Replace(…, 1)`, identifier
-masks with `strings.ReplaceAll`, as `unmaskStep` models. -/
-theorem C15_unmask_mode_tied :
-    Arc.Generated.C15.unmaskStrCount = 1 ∧ Arc.Generated.C15.unmaskIdentAll = true := by decide
+/-- **C15_unmask_single_pass_tied.** `UnmaskStringLiterals` is one `strings.NewReplacer(pairs...)
+.Replace(sql)` with the pairs in mask order and no per-mask Replace / ReplaceAll loop — what `unmaskF`
+models and `C15_roundtrip_partial` relies on. -/
+theorem C15_unmask_single_pass_tied : Arc.Generated.C15.unmaskSinglePass = true := by decide
 
 /-- **C15_ident_dedup_key_tied.** Quoted identifiers share a placeholder only when their token text is
 byte-for-byte identical (`render` looks the whole token up): the key of the `identPlaceholders` map in
 the current source is the token text itself, not a normalised form. -/
 theorem C15_ident_dedup_key_tied : Arc.Generated.C15.identDedupKeyIsTokenText = true := by decide
 
-/-- **C15_unmask_order_tied.** Masks are restored first-to-last in the current source. -/
-theorem C15_unmask_order_tied : Arc.Generated.C15.unmaskFirstToLast = true := by decide
-
-/-- `"a" '__IDENT_0__'` (an identifier placeholder spelled inside a LATER literal) round-trips because
-the identifier mask is restored BEFORE the literal comes back … -/
-theorem C15_roundtrip_later_literal_ok :
-    unmask (mask ([34, 97, 34, 32, 39, 95, 95, 73, 68, 69, 78, 84, 95, 48, 95, 95, 39] : Bytes) true).1 (mask ([34, 97, 34, 32, 39, 95, 95, 73, 68, 69, 78, 84, 95, 48, 95, 95, 39] : Bytes) true).2 = ([34, 97, 34, 32, 39, 95, 95, 73, 68, 69, 78, 84, 95, 48, 95, 95, 39] : Bytes) := by decide
-/-- … and would not if the same masks were restored last-to-first: the result is `"a" '"a"'`. -/
-theorem C15_roundtrip_order_witness :
-    unmask (mask ([34, 97, 34, 32, 39, 95, 95, 73, 68, 69, 78, 84, 95, 48, 95, 95, 39] : Bytes) true).1 (mask ([34, 97, 34, 32, 39, 95, 95, 73, 68, 69, 78, 84, 95, 48, 95, 95, 39] : Bytes) true).2.reverse ≠ ([34, 97, 34, 32, 39, 95, 95, 73, 68, 69, 78, 84, 95, 48, 95, 95, 39] : Bytes) := by decide
-
 /-- **C15_sites_mask_before_strip.** Every function of `internal/api/query.go` that strips comments
-masks first — the order `normalize` models (and the reason a quote inside a comment is a finding). -/
+masks first — the order `normalize` models. -/
 theorem C15_sites_mask_before_strip :
     ∀ s ∈ Arc.Generated.C15.callSites, s.2 = true := by decide
 
